@@ -10,7 +10,8 @@ import Driver.Util
   `pdshmodel opt model <d4><d5><atoi><dopt><wuser><early>`
       pers=dsh|pdcp|rpdcp luser=HEX lmax=N prog=HEX avail=HEX,HEX,.. [modopts=HEX] env=NAMEHEX:VALHEX,.. argv=HEX,HEX,..
         -> "exit N"
-         | "ok <fanout> <ctmo> <utmo> <ruser> <rcmd|~> <misc|~> <path> q=<0|1> S=<0|1> k=<0|1> term=<0|1> mw=<A|B>"
+         | "ok <fanout> <ctmo> <utmo> <ruser> <rcmd|~> <misc|~> <path> q=<0|1> S=<0|1> k=<0|1> term=<0|1> mw=<A|B> z=<0|1>
+            next=<info|server|client|run|copy|interactive> cmd=<HEX|~> in=HEX,.. out=<HEX|~>"   (`mainPlan`: main as a whole)
   `pdshmodel opt spec`
       pers=.. luser= lmax= prog= avail= dfr=HEX(default rcmd) st=0|1
       cf= ef= ct= et= cu= eu= cl= cR= eR= cM= eM= ce= ee=       (texts per setting: c* command line, e* environment)
@@ -58,17 +59,28 @@ def optHex : Option Str → String
   | none => "~"
   | some s => Hex.encodeChars s
 
+def nextName : Next → String
+  | .info => "info"
+  | .pcpServer => "server"
+  | .pcpClient => "client"
+  | .run (some _) => "run"
+  | .run none => "copy"
+  | .interactive => "interactive"
+
 def stepModel (fx : Fixes) (line : String) : String :=
   let ws := Driver.words line
   match (kv ws "pers").bind parsePers, parseDefaults ws, parseEnv ((kv ws "env").getD ""),
         hexList ((kv ws "argv").getD "") with
   | some p, some d, some env, some argv =>
-    match effective fx d p env argv with
-    | .exit n => s!"exit {n}"
-    | .ok c =>
+    match mainPlan fx d p env argv with
+    | .error n => s!"exit {n}"
+    | .ok (c, nx) =>
+      let files := pcpFiles c.pcpClient (getopt (fullString d p) argv).2
       s!"ok {c.fanout} {c.connectTimeout} {c.commandTimeout} {Hex.encodeChars c.ruser} {optHex c.rcmdName} " ++
       s!"{optHex c.miscModules} {Hex.encodeChars c.remotePath} q={b01 c.infoOnly} S={b01 c.retRemoteRc} " ++
-      s!"k={b01 c.killOnFail} term={b01 (runTerminates c)} mw={String.ofList (miscWinner c)} z={b01 c.pcpServer}"
+      s!"k={b01 c.killOnFail} term={b01 (runTerminates c)} mw={String.ofList (miscWinner c)} z={b01 c.pcpServer} " ++
+      s!"next={nextName nx} cmd={optHex (assembleCmd (getopt (fullString d p) argv).2)} " ++
+      s!"in={",".intercalate (files.1.map Hex.encodeChars)} out={optHex files.2}"
   | _, _, _, _ => "bad-op"
 
 def sources (ws : List String) (c e : String) : Spec.Sources :=
